@@ -184,7 +184,7 @@ func runConcurrentWorld(s *stats, w0 *world, rng *rand.Rand) error {
 }
 
 func concurrentPhase(r *ev.Run, workers int, total *stats, mu *sync.Mutex) {
-	worlds := r.Pick(1000, 4000)
+	worlds := r.Pick(800, 2500)
 	// two goroutines per world: half the workers
 	if workers = workers / 2; workers < 1 {
 		workers = 1
